@@ -34,6 +34,7 @@ func (d *discardFlusher) Flush()                      {}
 func main() {
 	dur := flag.Duration("dur", 1500*time.Millisecond, "")
 	seed := flag.Int64("seed", 1, "")
+	minIter := flag.Int("miniter", 400, "every worker does at least this many rounds even when the machine is busy (bounded by 8 x dur)")
 	flag.Parse()
 	sf := &rolling.StatFactory{}
 	slo := &responsetimeslo.Factory{}
@@ -41,6 +42,7 @@ func main() {
 	m := &circuit.Manager{DefaultCircuitProperties: []circuit.CommandPropertiesConstructor{sf.CreateConfig, slo.CommandProperties, hf.Configure}}
 	c := m.MustCreateCircuit("c", circuit.Config{Execution: circuit.ExecutionConfig{Timeout: 2 * time.Millisecond, IsErrInterrupt: func(error) bool { return true }}})
 	stop := time.Now().Add(*dur)
+	hardStop := time.Now().Add(8 * *dur)
 	var wg sync.WaitGroup
 	var libPanics atomic.Int64
 	full := c.Config() // the complete configuration (time keeper, factories, collectors), to alternate with partial ones
@@ -59,7 +61,7 @@ func main() {
 		go func() {
 			defer wg.Done()
 			r := rand.New(rand.NewSource(*seed*100 + int64(id)))
-			for time.Now().Before(stop) {
+			for n := 0; time.Now().Before(stop) || (n < *minIter && time.Now().Before(hardStop)); n++ {
 				func() {
 					defer func() {
 						// the only panic a worker may see is the one its own run function raises ("p")
